@@ -204,7 +204,7 @@ def analyse_template(args):
             out["notes"].extend(sk.notes)
             out["opaque"].extend(sk.opaque)
             # interface closure on every used access path
-            for (canon, kind), (term, tmpl, line, guards) in sk.uses.items():
+            for (canon, kind), (term, tmpl, line, guards, _fctx) in sk.uses.items():
                 if kind in ("first", "last"):
                     # first/last of a possibly empty sequence: jinja returns Undefined, StrictUndefined raises on use
                     key = (kind, tmpl, line, canon)
